@@ -185,3 +185,87 @@ func printFiles(files refint.Files, l *tw.Layout) map[string]string {
 	}
 	return out
 }
+
+// seqCase is one loaded template directory rendered several times in a row
+// (pages and data vary per step); every render is held to its own expectation.
+// What a page renders to is a function of the files and of the data of that
+// call, whatever was rendered on the same *Template before.
+type seqStep struct {
+	Page string     `json:"page"`
+	Data *spec.Data `json:"data,omitempty"`
+	Want want       `json:"want"`
+}
+
+type seqCase struct {
+	Files map[string]string `json:"files"`
+	Dir   string            `json:"dir"`
+	Ext   string            `json:"ext"`
+	Steps []seqStep         `json:"steps"`
+}
+
+func (cs seqCase) sample() map[string]any {
+	steps := []map[string]any{}
+	for _, s := range cs.Steps {
+		d := map[string]string{}
+		if s.Data != nil {
+			for i, k := range s.Data.Keys {
+				d[k] = spec.Describe(s.Data.Vals[i])
+			}
+		}
+		steps = append(steps, map[string]any{"page": s.Page, "data": d, "want": s.Want})
+	}
+	return map[string]any{"files": cs.Files, "steps": steps}
+}
+
+// runSeqCase returns the results of the steps and the first failure.
+func runSeqCase(c *harness.Check, cs seqCase) ([]Result, string) {
+	tc := treeCase{Files: cs.Files, Dir: cs.Dir, Ext: cs.Ext}
+	root, err := tree.Materialise(tc.tree())
+	if err != nil {
+		return nil, ""
+	}
+	_ = root
+	var results []Result
+	failure := ""
+	pi := c.Guard("json", mustJSON(cs), func() {
+		textwire.VerifReset()
+		tpl, err := textwire.NewTemplate(&config.Config{TemplateDir: cs.Dir, TemplateExt: cs.Ext})
+		if err != nil {
+			failure = "unexpected load error: " + err.Error()
+			return
+		}
+		for i, st := range cs.Steps {
+			var r Result
+			out, ferr := tpl.String(st.Page, st.Data.GoMap())
+			r.Out = out
+			if ferr != nil {
+				r.Err = ferr.String()
+				if r.Err == "" {
+					r.Err = "(empty error)"
+				}
+			}
+			results = append(results, r)
+			if f := st.Want.matches(r); f != "" && failure == "" {
+				failure = fmt.Sprintf("render %d of %d on one loaded *Template (page %q): %s", i+1, len(cs.Steps), st.Page, f)
+			}
+		}
+	})
+	if pi != nil {
+		return results, "panic: " + pi.Value
+	}
+	return results, failure
+}
+
+func registerSeqReplayer(names ...string) {
+	for _, n := range names {
+		harness.RegisterReplayer(n, func(raw json.RawMessage) string {
+			cs, err := unJSON[seqCase](raw)
+			if err != nil {
+				return "bad case: " + err.Error()
+			}
+			c := harness.New(nopTB{}, "replay", "replay", "")
+			_, f := runSeqCase(c, cs)
+			return f
+		})
+	}
+}
